@@ -40,7 +40,7 @@ func init() {
 					add(fmt.Sprintf("%s-s2-std-k3", idxName[idx]), merge(base, p("k", 3, "ops", opPut|opDelete|opSync, "index", idx, "shards", 2)))
 				}
 				add("hashmap-s1-mmap-k3", merge(base, p("k", 3, "ops", opPut|opDelete, "index", 3, "shards", 1, "io", 1)))
-				add("hashmap-s1-batch-k2", merge(base, p("k", 2, "ops", opPut|opDelete|opBatch, "bmax", 2, "index", 3, "shards", 1)))
+				add("hashmap-s1-batch-k2", merge(base, p("k", 2, "ops", opPut|opDelete|opBatch, "bmax", 2, "index", 3, "shards", 1, "vlens", 2)))
 				add("btree-s1-merge-k3", merge(base, p("k", 3, "ops", opPut|opDelete|opMerge, "index", 1, "shards", 1)))
 			} else {
 				for idx := 1; idx <= 3; idx++ {
@@ -682,7 +682,7 @@ func init() {
 				add("all-commands-1key-k2", p("k", 2, "keys", 1, "cmds", 65535))
 				add("string-hash-del-type-2keys-k3", p("k", 3, "keys", 2, "cmds", cSet|cGet|cDel|cType|cHSet|cHGet|cHDel|cRestart))
 				add("list-restart-k4", p("k", 4, "keys", 1, "cmds", cLPush|cLPop|cDel|cRestart))
-				add("zset-btree-k3", p("k", 3, "keys", 1, "cmds", cZAdd|cZScore|cDel|cRestart, "index", 1))
+				add("zset-btree-k3", p("k", 3, "keys", 1, "cmds", cZAdd|cZScore|cDel|cRestart, "index", 1, "nscores", 2))
 				add("set-type-k3", p("k", 3, "keys", 1, "cmds", cSAdd|cSRem|cSIsMember|cDel|cType|cSet))
 				// delete + re-create across a restart (a re-created key must start empty)
 				add("hash-del-restart-k4", p("k", 4, "keys", 1, "cmds", cHSet|cHGet|cDel|cRestart))
